@@ -355,6 +355,17 @@ func genFsCase(r *Rng, family string) *FsCase {
 			if r.chance(1, 2) {
 				world = append(world, g.genTree("/w/root", 2+r.intn(4), &mt)...)
 			}
+			switch r.intn(8) {
+			case 0, 1:
+				// the destination lies behind a symlink planted under the root that points outside it
+				world = append(world, Node{Path: "/w/root/lnk", Kind: 's', Perm: 0o777, Target: r.pick([]string{"/w/outdir", "../outdir", "../dest2", "/w", ".."}), Mtime: 1603})
+				dest = r.pick([]string{"/w/root/lnk/new", "/w/root/lnk", "/w/root/lnk/new/deeper", "/w/root/lnk/of"})
+			case 2:
+				// the root is not a directory: the jail cannot be set up and nothing may run
+				root = r.pick([]string{"/w/secret", "/w/missing"})
+				dest = root + r.pick([]string{"", "/sub"})
+				c.Args = []string{"settle"}
+			}
 		}
 	case "layer-chroot":
 		root = dest
@@ -388,7 +399,7 @@ func (r *Rng) pick2(a, b, c int) int { return []int{a, b, c}[r.intn(3)] }
 
 func (c *FsCase) job(id int) Job {
 	return Job{ID: id, Kind: "fs", Op: c.Op, Opts: c.Opts.String(), Dest: c.Dest, Root: c.Root, Umask: c.Umask,
-		Nodes: c.Nodes, Archive: c.Archive, Gzip: c.Gzip}
+		Nodes: c.Nodes, Archive: c.Archive, Gzip: c.Gzip, Args: c.Args}
 }
 
 func runExtract(cfg *Config, family string) *Result {
